@@ -283,7 +283,7 @@ func genQueryScenario(prop string, seed uint64, tier string) (*Scenario, *qMeta)
 	if r.Bool(0.7) {
 		m.Stmts = append(m.Stmts, "COMMIT;")
 	}
-	sc.Procs = []ProcSpec{{CPU: 1, WaitTimeoutS: 10.0000001, RetryDelayNs: 10001009, Quiet: true, Format: "CSV"}}
+	sc.Procs = []ProcSpec{{CPU: 1, WaitTimeoutS: 10.0000001, RetryDelayNs: 10001009, Quiet: true, Format: "CSV", Flags: swarmFlags(Sub(seed, "q-flags"), 0.25)}}
 	renderQuery(sc, m)
 	if m.Big {
 		sc.Knobs = Knobs{RowStride: r.Pick(16, 64, 256), Pool: "lifo", MinPerCore: r.Pick(0, 0, 20)}
